@@ -268,6 +268,8 @@ func VerifyAddressKey(ip netip.Addr, digestAlg crop.Hash, keyType crop.KeyPairTy
 		return errors.New("IP not specified")
 	case digestAlg == "":
 		return errors.New("hash algorithm not specified")
+	case !digestAlg.IsValid():
+		return errors.New("invalid hash algorithm")
 	case keyType == "":
 		return errors.New("key type not specified")
 	case len(pubKeyData) == 0:
@@ -491,6 +493,16 @@ func (addr *PublicAddress) VerifyAddress() error {
 	// Check if the address is in the base prefix.
 	if !BaseNetPrefix.Contains(addr.IP) {
 		return errors.New("invalid ip address")
+	}
+
+	// Check if the algorithms and key size are supported.
+	switch {
+	case !addr.Hash.IsValid():
+		return errors.New("invalid address hash algorithm")
+	case addr.Type != crop.KeyPairTypeEd25519:
+		return errors.New("unsupported address key type")
+	case len(addr.PublicKey) != ed25519.PublicKeySize:
+		return fmt.Errorf("invalid public key size: %d (should be %d)", len(addr.PublicKey), ed25519.PublicKeySize)
 	}
 
 	return VerifyAddressKey(addr.IP, addr.Hash, addr.Type, addr.PublicKey, addr.Easing)
